@@ -32,6 +32,7 @@ class StreamV:
         self.refill = None        # optional callback(ip, stream, n): a reactive peer appends to `inbound` on demand
         self.pending_at = set()   # read positions at which the first read attempt finds no data yet (Poll::Pending once)
         self.on_write = None      # optional callback(ip, stream, data) after each write_all
+        self.on_read = None       # optional callback(ip, stream) before each read operation
 
     def __repr__(self):
         return "Stream(%s pos=%d/%d out=%d)" % (self.name, self.pos, len(self.inbound), len(self.out))
@@ -96,6 +97,8 @@ def do_io(ip, fut):
         else:
             n = int(re.search(r'\d+', op).group(0)) // 8
         st.ops.append((op, n))
+        if st.on_read is not None:
+            st.on_read(ip, st)
         if st.failed:
             return err(ip, io_error(ip, 'AfterFailure'))
         if st.fail_reads and ip.choose(2, 'read_fault') == 1:
